@@ -398,6 +398,11 @@ def obligations(tier):
                     out += specs("C03.index.inverse", [cfg], ob_index_inv, 1)
                     if DIMS[s] == 2 or typ in ("state", "povm"):
                         out += specs("C03.gradient", [cfg], ob_gradient, 2)
+    if tier == "quick":
+        # larger-than-qubit index maps (strides d^2 vs 2d differ only beyond one qubit)
+        for flag in (True, False):
+            out += specs("C03.index.inverse", [{"typ": "gate", "sys": "T1", "m": 0, "flag": flag}], ob_index_inv, 2)
+            out += specs("C03.index.points", [{"typ": "gate", "sys": "T1", "m": 0, "flag": flag}], ob_index, 3)
     for typ in TYPES:
         m = 0 if typ in ("state", "gate") else 3
         for tflag in (True, False):
